@@ -39,7 +39,7 @@ def _product_loop(fi, target_attr=None, target_local=None):
                 continue
             if target_attr is not None and R.self_attr(st.target, fi.self_name) != target_attr:
                 continue
-            if target_local is not None and not (isinstance(st.target, ast.Name) and st.target.id == target_local):
+            if target_local is not None and not isinstance(st.target, ast.Name):
                 continue
             it = tm.term(loop.iter)
             sn = c.node_of(st)
@@ -64,7 +64,7 @@ def run(prog, ctx):
     idx = ("a", ("n", "self"), "index")
     sites = []
     for fi, kind in ((init, "norm"), (call, "eval"), (minit, "norm")):
-        pl = _product_loop(fi, target_attr="factor") if kind == "norm" else _product_loop(fi, target_local="result")
+        pl = _product_loop(fi, target_attr="factor") if kind == "norm" else _product_loop(fi, target_local=True)
         key = R.key_of(fi, "filtered-product")
         if pl is None:
             ctx.violation("C10.D1", key, fi.loc(), "no product loop over the knots found in %s" % fi.qual)
@@ -94,8 +94,10 @@ def run(prog, ctx):
                   "function is no longer 1 at its own knot")
     # the evaluation returns product * factor; the initial values are 1
     tmc = Terms(call.node, max_depth=0)
-    okr = any(tmc.term(r.ast.value) == ("op", "Mult", tuple(sorted((("n", "result"), ("a", ("n", "self"), "factor")), key=repr))) for r in R.return_paths(call)[0])
-    inits_ok = any(b.kind == "assign" and tmc.term(b.value) == ("c", "1") for b in tmc.env.bindings.get("result", []))
+    plc = _product_loop(call, target_local=True)
+    prod = plc["stmt"].target.id if plc is not None else None
+    okr = any(tmc.term(r.ast.value) == ("op", "Mult", tuple(sorted((("n", prod), ("a", ("n", "self"), "factor")), key=repr))) for r in R.return_paths(call)[0])
+    inits_ok = any(b.kind == "assign" and tmc.term(b.value) == ("c", "1") for b in tmc.env.bindings.get(prod, []))
     ctx.check(okr and inits_ok, "C10.D1", R.key_of(call, "returns-normalised-product"), call.loc(),
               "returns (product starting at 1) * normalisation factor", "LagrangeBasis.__call__ no longer returns the product (started at 1) times self.factor")
     for fi in (init, minit):
@@ -127,8 +129,21 @@ def run(prog, ctx):
     c = cfg_of(hz)
     d = hz.params[3]
     gv = hz.params[1]
+    # roles from the direct solve  S = np.linalg.solve(M, P[n, :]):  M collocation matrix, P pole values, n the row, S the surpluses
+    dsolve = [x for x in R.calls_in(hz.node) if tm.term(x.func) == ("a", ("a", ("n", "np"), "linalg"), "solve") and len(x.args) == 2]
+    if len(dsolve) != 1 or not isinstance(dsolve[0].args[0], ast.Name):
+        raise AnalysisError("anchor vanished: the direct solve np.linalg.solve(<matrix>, <pole values>[n, :]) in %s" % hz.qual)
+    MAT = dsolve[0].args[0].id
+    rhs_ast = dsolve[0].args[1]
+    PV = rhs_ast.value.id if isinstance(rhs_ast, ast.Subscript) and isinstance(rhs_ast.value, ast.Name) else None
+    rt_ = tm.term(rhs_ast)
+    ROW = rt_[2][1][1] if rt_[0] == "s" and rt_[2][0] == "tuple" and rt_[2][1][0] == "n" else None
+    par_ = getattr(dsolve[0], "_parent", None)
+    HV = par_.targets[0].id if isinstance(par_, ast.Assign) and isinstance(par_.targets[0], ast.Name) else None
+    if PV is None or ROW is None or HV is None:
+        raise AnalysisError("anchor vanished: roles of the direct solve in %s (pole values %s, row %s, surpluses %s)" % (hz.qual, PV, ROW, HV))
     mstores = [st for st in walk_local(hz.node) if isinstance(st, ast.Assign) and isinstance(st.targets[0], ast.Subscript)
-               and isinstance(st.targets[0].value, ast.Name) and st.targets[0].value.id == "matrix"]
+               and isinstance(st.targets[0].value, ast.Name) and st.targets[0].value.id == MAT]
     ctx.floor("C10.D2", len(mstores), 1, "collocation matrix stores")
     for st in mstores:
         tg = tm.term(st.targets[0].slice)
@@ -151,7 +166,7 @@ def run(prog, ctx):
                   "row = grid point, column = basis function", "collocation matrix: " + why)
     # right-hand side read and solution write-back use the same pole positions
     reads = [st for st in walk_local(hz.node) if isinstance(st, ast.Assign) and isinstance(st.targets[0], ast.Subscript)
-             and isinstance(st.targets[0].value, ast.Name) and st.targets[0].value.id == "pole_values"]
+             and isinstance(st.targets[0].value, ast.Name) and st.targets[0].value.id == PV]
     writes = [st for st in walk_local(hz.node) if isinstance(st, ast.Assign) and isinstance(st.targets[0], ast.Subscript)
               and isinstance(st.targets[0].value, ast.Name) and st.targets[0].value.id == gv]
     ok = len(reads) == 1 and len(writes) == 1
@@ -161,10 +176,11 @@ def run(prog, ctx):
         wt, wv = tm.term(writes[0].targets[0].slice), tm.term(writes[0].value)
         i_r = rt[2] if rt[0] == "tuple" else None
         pos_r = rv[2][2] if rv[0] == "s" and rv[1] == ("n", gv) and rv[2][0] == "tuple" else None
-        okr_ = pos_r is not None and pos_r[0] == "s" and pos_r[1] == ("n", "pole_coordinates") and pos_r[2] == i_r
-        i_w = wv[2] if wv[0] == "s" and wv[1] == ("n", "hierarchized_values") else None
+        okr_ = pos_r is not None and pos_r[0] == "s" and pos_r[1][0] == "n" and pos_r[2] == i_r
+        PC = pos_r[1] if okr_ else None                      # role: the position table of the current pole
+        i_w = wv[2] if wv[0] == "s" and wv[1] == ("n", HV) else None
         pos_w = wt[2] if wt[0] == "tuple" else None
-        okw = pos_w is not None and pos_w[0] == "s" and pos_w[1] == ("n", "pole_coordinates") and pos_w[2] == i_w and wt[1] == ("n", "n")
+        okw = pos_w is not None and pos_w[0] == "s" and pos_w[1] == PC and pos_w[2] == i_w and wt[1] == ("n", ROW)
         ok = okr_ and okw
         why = "read %s <- %s ; write-back %s <- %s" % (show(rt), show(rv), show(wt), show(wv))
     ctx.check(ok, "C10.D2", R.key_of(hz, "pole-read-write-back"), hz.loc(writes[0]) if writes else hz.loc(),
@@ -172,16 +188,19 @@ def run(prog, ctx):
               "hierarchisation does not read pole value i from / write surplus i back to the same position pole_coordinates[i]: " + why)
     # the two solve branches
     solves = []
-    for b in tm.env.bindings.get("hierarchized_values", []):
+    for b in tm.env.bindings.get(HV, []):
         if b.kind == "assign":
             solves.append(tm.term(b.value))
-    rhs = ("s", ("n", "pole_values"), ("tuple", ("n", "n"), ("slice", ("c", "None"), ("c", "None"), ("c", "None"))))
-    direct = ("call", ("a", ("a", ("n", "np"), "linalg"), "solve"), (("n", "matrix"), rhs), ())
+    rhs = ("s", ("n", PV), ("tuple", ("n", ROW), ("slice", ("c", "None"), ("c", "None"), ("c", "None"))))
+    direct = ("call", ("a", ("a", ("n", "np"), "linalg"), "solve"), (("n", MAT), rhs), ())
     okd = direct in solves
-    okq = any(t[0] == "call" and t[1] == ("n", "solve_triangular") and t[2][0] == ("n", "R") and
-              t[2][1] == ("call", ("a", ("n", "np"), "inner"), (("a", ("n", "Q"), "T"), rhs), ()) for t in solves)
-    qr_ok = any(b.kind == "unpack" and tm.term(b.value) == ("call", ("a", ("a", ("n", "np"), "linalg"), "qr"), (("n", "matrix"),), ())
-                for b in tm.env.bindings.get("Q", [])) and any(b.kind == "unpack" and b.index == (1,) for b in tm.env.bindings.get("R", []))
+    # roles of the QR factors: the two names unpacked from np.linalg.qr(M)
+    qr_t = ("call", ("a", ("a", ("n", "np"), "linalg"), "qr"), (("n", MAT),), ())
+    QN = next((nm for nm, bs in tm.env.bindings.items() for b in bs if b.kind == "unpack" and b.index == (0,) and tm.term(b.value) == qr_t), None)
+    RN = next((nm for nm, bs in tm.env.bindings.items() for b in bs if b.kind == "unpack" and b.index == (1,) and tm.term(b.value) == qr_t), None)
+    okq = any(t[0] == "call" and t[1] == ("n", "solve_triangular") and t[2][0] == ("n", RN) and
+              t[2][1] == ("call", ("a", ("n", "np"), "inner"), (("a", ("n", QN), "T"), rhs), ()) for t in solves)
+    qr_ok = QN is not None and RN is not None
     ctx.check(okd and (not any(t[1] == ("n", "solve_triangular") for t in solves if t[0] == "call") or (okq and qr_ok)), "C10.D2",
               R.key_of(hz, "solves-collocation-system"), hz.loc(),
               "both branches solve matrix * surpluses = pole values (directly / through Q, R = qr(matrix))",
@@ -248,10 +267,17 @@ def _abstract_params(fi, k):
     return rec(k)
 
 
-def _accumulated(fi, name="result"):
-    """sum of `name = e0; name += e1; ...` (the general branch of the recursion) as a polynomial over value-term atoms"""
+def _accumulated(fi, name=None):
+    """sum of `name = e0; name += e1; ...` (the general branch of the recursion) as a polynomial over value-term atoms; the
+    accumulator is found by role: the returned local that is updated by augmented assignments"""
     from ..absint import poly_of_term, Poly
     tm = Terms(fi.node)
+    if name is None:
+        aug = {st.target.id for st in walk_local(fi.node) if isinstance(st, ast.AugAssign) and isinstance(st.target, ast.Name)}
+        retn = [r.ast.value.id for r in R.return_paths(fi)[0] if isinstance(r.ast.value, ast.Name) and r.ast.value.id in aug]
+        if not retn:
+            return None
+        name = retn[-1]
     total = None
     n_assign = 0
     for st in walk_local(fi.node):
